@@ -2,5 +2,5 @@
 From Coq Require Extraction ExtrOcamlBasic.
 From Verif Require Import Frame.FrameModel Frame.FrameMachine Frame.FrameExec Frame.SlotModel Frame.SlotFull.
 Extraction Blacklist List String Int.
-Extraction "frame.ml" FrameModel.a64_realisable FrameModel.compiler_cc FrameModel.cc_init FrameModel.min_dynamic_alignment FrameModel.finalize
+Extraction "frame.ml" FrameModel.finalize_error FrameModel.a64_realisable FrameModel.compiler_cc FrameModel.cc_init FrameModel.min_dynamic_alignment FrameModel.finalize
   FrameModel.prolog FrameModel.epilog FrameModel.saved_regs SlotModel.alloc_offsets SlotModel.alloc_all SlotFull.order_ok SlotFull.placed_ok SlotFull.alloc_frame SlotFull.to_sslot SlotFull.slot_weight FrameExec.exec_frame FrameExec.exec_args_frame.
